@@ -211,8 +211,71 @@ def poison(rng, tmp):
         pass
 
 
+HASH_SCRIPT = '''
+import json
+from collections import OrderedDict
+from mpilot.program import Program
+from mpilot.commands import Command
+from mpilot import params
+
+BS, Q, LF, CR, TAB = chr(92), chr(34), chr(10), chr(13), chr(9)
+
+
+class Keep(Command):
+    inputs = {"Text": params.StringParameter(), "Many": params.ListParameter(params.StringParameter(), required=False), "Metadata": params.TupleParameter(required=False)}
+    allow_extra_inputs = True
+
+    def execute(self, **kw):
+        return True
+
+texts = ["C:" + BS + "temp" + BS + Q + "new" + Q + ".csv", "a" + BS + "b" + LF + "c" + TAB + "d", "q" + Q + BS, BS + CR + LF + Q, "it's " + BS + " " + Q + "both" + Q,
+         "tab" + TAB + "here" + BS + "n", "plain", BS, Q, BS + Q + LF + TAB + CR, Q + BS + Q + BS]
+out = []
+for t in texts:
+    p = Program(libraries=("__main__",))
+    a = OrderedDict()
+    a["Text"] = t
+    a["Many"] = [t, t + "x"]
+    a["Metadata"] = {"k": t}
+    a["Extra"] = t
+    a["Table"] = OrderedDict([("depth", "m"), ("k", t)])       # a key-value table given to a command that takes extra arguments
+    p.add_command(Keep, "R", a)
+    s = p.to_string()
+    try:
+        q = Program.from_source(s, libraries=("__main__",))
+        back = dict((x.name, x.value) for x in q.commands["R"].arguments)
+        ok = back.get("Text") == t and list(back.get("Many")) == [t, t + "x"] and back.get("Metadata") == {"k": t} and back.get("Extra") == t and back.get("Table") == {"depth": "m", "k": t}
+        out.append([s, "same" if ok else "differs: %r" % (back,)])
+    except Exception as e:
+        out.append([s, "reload raised %s" % type(e).__name__])
+print(json.dumps(out))
+'''
+
+
+def hash_seeds(ctx):
+    """the saved text of a program, and what loading it gives, under eight hash seeds (fresh interpreters): strings holding backslashes together with quotes,
+    line breaks and tabs - whatever order a set of characters is walked in, the text is the same text and loads back to the same values"""
+    runs = common.hash_sweep(HASH_SCRIPT)
+    ref = None
+    for sd, val, err in runs:
+        ctx.count("hash_seed_runs")
+        ctx.case("hash-seed %d" % sd, sample=None)
+        if val is None:
+            ctx.fail("serialising under PYTHONHASHSEED=%d crashed: %s" % (sd, err[-200:]), {"hash_seed": sd})
+            continue
+        bad = [x for x in val if x[1] != "same"]
+        if bad:
+            ctx.fail("under PYTHONHASHSEED=%d a program whose strings hold backslashes together with quotes / line breaks / tabs does not load back to itself: %s" % (sd, bad[0][1][:200]),
+                     {"hash_seed": sd, "saved_text": bad[0][0]})
+        elif ref is not None and [x[0] for x in val] != ref:
+            ctx.fail("the saved text of a program depends on the hash seed (PYTHONHASHSEED=%d differs from seed 0)" % sd, {"hash_seed": sd})
+        if ref is None:
+            ref = [x[0] for x in val]
+
+
 def run(ctx):
     ctx.check_proofs(["MPilot.Props.C15", "MPilot.Props.C15Program"])
+    hash_seeds(ctx)
     model = common.Model()
     rng = ctx.rng
     tmp = common.tmpdir("mpv_c15_")
